@@ -113,6 +113,7 @@ impl World {
                     K::BarrierOnly | K::AdoptWeak | K::LeafBarrier => Some(op.c),
                     K::AdoptBy2 => Some(op.a),
                     K::AdoptUp => self.sh.objs[op.b as usize].w,
+                    K::AdoptWeakFrom => self.sh.objs[op.c as usize].w,
                     _ => None,
                 };
                 if let Some(c) = child {
@@ -378,6 +379,14 @@ impl World {
                                 ops.push(Op::n3(K::AdoptWeak, path, *p, *c));
                             }
                         }
+                        for h in &nodes {
+                            // only for targets that are not strongly reachable (the others are AdoptWeak's)
+                            if let Some(t) = self.sh.objs[*h as usize].w {
+                                if h != p && so.w != Some(t) && !nodes.contains(&t) {
+                                    ops.push(Op::n3(K::AdoptWeakFrom, path, *p, *h));
+                                }
+                            }
+                        }
                     }
                 }
                 for path in 1..=7u8 {
@@ -431,6 +440,9 @@ impl World {
                         }
                         if room {
                             ops.push(Op::n1(K::CellSetNew, *p));
+                            if co.kind == KCELL_O && co.s[0].is_none() {
+                                ops.push(Op::n1(K::CellInitNew, *p));
+                            }
                         }
                         if co.kind != KCELL_O && co.s[0].is_some() {
                             ops.push(Op::n1(K::CellClear, *p));
@@ -1026,8 +1038,42 @@ fn c03_body<'gc>(w: &World, mc: &gc_arena::Mutation<'gc>, m: &[Option<Obj<'gc>>]
             }
         }
     }
+    // rootless_mutate nested in the callback and in itself: the end of an inner call destructs exactly
+    // the inner call's allocations, nothing of the call (or arena callback) it is nested in
+    let t0 = 5000 + base;
+    let dt = crate::world::dropped_times;
+    let b4 = [dt(t0), dt(t0 + 1), dt(t0 + 2)];
+    let r: Result<(), &'static str> = talloc::subject(|| {
+        gc_arena::arena::rootless_mutate(|m2| {
+            let x = gc_arena::Gc::new(m2, Leaf { id: 9101, pat: pattern(9101), n: 0, _tok: Tok(t0) });
+            let inner_ok = gc_arena::arena::rootless_mutate(|m3| {
+                let y = gc_arena::Gc::new(m3, Leaf { id: 9102, pat: pattern(9102), n: 0, _tok: Tok(t0 + 1) });
+                y.pat == pattern(9102) && x.pat == pattern(9101)
+            });
+            if !inner_ok {
+                return Err("allocations of nested rootless_mutate calls do not read their values");
+            }
+            if dt(t0 + 1) != b4[1] + 1 {
+                return Err("the allocation of an inner rootless_mutate call was not destructed exactly once when the call ended");
+            }
+            if dt(t0) != b4[0] {
+                return Err("the end of an inner rootless_mutate call destructed an allocation of the outer call that is still running");
+            }
+            let z = gc_arena::Gc::new(m2, Leaf { id: 9103, pat: pattern(9103), n: 0, _tok: Tok(t0 + 2) });
+            if x.pat != pattern(9101) || z.pat != pattern(9103) {
+                return Err("an allocation of the outer rootless_mutate call no longer reads its value after an inner call ended");
+            }
+            Ok(())
+        })
+    });
+    if let Err(e) = r {
+        viol!("c03.rootless_nested", "{e}");
+    }
+    if dt(t0) != b4[0] + 1 || dt(t0 + 2) != b4[2] + 1 {
+        viol!("c03.rootless_nested", "allocations of a rootless_mutate call were not destructed exactly once when it ended");
+    }
     let t2 = talloc::subject(|| gc_arena::Gc::new(mc, Leaf { id: 9002, pat: pattern(9002), n: 0, _tok: Tok(base + 127) }));
-    if drops_len() != d0 || talloc::gc_frees_len() != f0 {
+    if crate::world::arena_drops_since(d0) != 0 || talloc::gc_frees_len() != f0 {
         viol!("c03.destructed_in_callback", "values destructed or released while the callback was still running (huge debt)");
     }
     if t1.pat != pattern(9001) || t2.pat != pattern(9002) {
